@@ -10,10 +10,11 @@ MODULES = ["Iodata.Props.C15"]
 RULE = (
     "same object generators as C02 (sizes around every width boundary, all elements, magnitude classes, titles, bonds, "
     "optional attributes; Cube shapes with every row%6, FCHK objects with every optional section). dump/load/dump-gen2:<fmt> "
-    "(xyz, sdf, pdb, cube, fchk): model and implementation in lock step through two generations (bytes of generation 1 and "
+    "(xyz, sdf, pdb incl. multi-line TITLE/COMPND, mol2, cube, fchk): model and implementation in lock step through two generations (bytes of generation 1 and "
     "2, re-quantised reload). cycles:<fmt> (those five and mol2, fcidump, poscar): three save/reload cycles on the real code "
     "from unquantised random objects; reload 2 must be bit-identical to reload 1 (every IOData attribute, array bytes), the "
-    "files of generation 2 and 3 byte-identical. corpus:<file>-><fmt>: every file of iodata/test/data that loads, written to "
+    "files of generation 2 and 3 byte-identical; PDB objects with 2..101-line titles and compounds are always among them. "
+    "corpus:<file>-><fmt>: (2bcw.pdb with its 14-line COMPND always included) every file of iodata/test/data that loads, written to "
     "every format that accepts it, three cycles. non-trivial = distinct request / distinct (file, format) pair"
 )
 TRUSTED = [
